@@ -35,5 +35,9 @@ def run(rep, tier):
     rep.rule("R-TIME-ORDER", "an ordering test between two time points (a time difference compared with a tolerance, not under abs) is never evaluated in the same form for both directions of integration")
     H.r_time_order(rep, hc)
     C19.interrupt_rule(rep, f)
+    rep.rule("R-CONFIG-FRAME", "each &mut self setter of EventConfig writes exactly one of the two settings (direction filter, terminal count) and leaves the other as configured")
+    H.r_config_frame(rep, f)
+    rep.rule("R-DIR-FROM", "the integer conversion into Direction selects by sign (exact evaluation at the function's literals, their neighbours and the i32 range ends)")
+    H.r_dir_from(rep, f)
     rep.explanation = ("Largely decided structurally. 'Everything before the stop is identical to the non-terminal run' follows from R-TERM-TAINT "
                        "(the terminal flag feeds only the Interrupt decision) together with determinism (C12).")
